@@ -194,7 +194,7 @@ with ThreadPoolExecutor(max_workers=2) as ex:
     exe, log = f1.result()
     exe_tsan, log_tsan = f2.result()
 stats = {"ok": 0, "rest_legit": 0, "spurious_runs": 0, "with_termination": 0, "le_returns": 0, "events": 0,
-         "model_skipped_direct_checks_only": 0}
+         "model_skipped_direct_checks_only": 0, "tau_inserted": 0, "tau_skipped": 0}
 distinct = set()
 samples = []
 corr_broken = None
@@ -251,7 +251,7 @@ else:
                     elif ri != "legit":
                         found = True; nviol += 1
                         ck.violation("real ThreadPool reaches a rest state the property forbids (lost wake-up / deadlock): %s; state: %s"
-                                     % (ri, re.search(r"STATE (.*?) THREADS", a).group(1) if " THREADS" in a else "?"),
+                                     % (ri, f.get("implstate", "?").replace(",", " ").replace(":", "=")),
                                      {"case": replay_case(), "impl": a[:3000]}, key="rest:" + strip_run(c))
                     else:
                         stats["rest_legit"] += 1
@@ -276,6 +276,7 @@ else:
                     if int(f.get("spur", "0")) > 0: stats["spurious_runs"] += 1
                     if f.get("term") == "1": stats["with_termination"] += 1
                     stats["le_returns"] += int(f.get("lers", "0"))
+                    stats["tau_inserted"] += int(f.get("tauins", "0")); stats["tau_skipped"] += int(f.get("tauskip", "0"))
                     if int(f.get("jobs", "0")) >= 1 and ev >= 30:
                         distinct.add(a if kind == "OK" else a[a.find(" TRACE "):])
                 if nviol >= 4: break
@@ -339,8 +340,12 @@ ck.finish({
             "terminate() during start-up), the default-size constructor, and the observers size()/idle()/has_idle()/thread(i)/done(). "
             "Rendezvous scenarios (every 8th): job bodies that block until another job's body has ended (pairs, chains, nested enqueues, "
             "racing enqueuers) on pools with enough workers; in the LTS this is the job operation JWait, enabled only when the awaited job has ended. "
-            "Every event of every real trace must be accepted by the extracted Coq transition function (atomic values, notify_one targets, "
-            "user payloads are part of the events); a direct checker evaluates the property on the trace; rest states are classified. "
+            "Trace correspondence is a WEAK simulation against the extracted Coq transition function: the synchronisation skeleton (lock/unlock of the "
+            "pool mutex, wait-begin/-end and notify per condition-variable role, notify_one targets, spawn/join/end, job start/end, enqueue and call "
+            "markers, the value seen at every loop_until_empty return) must be accepted event by event; loads/stores/RMWs of the bookkeeping atomics are "
+            "internal steps (applied when they are the thread's next model step with the same value, skipped otherwise, inserted from the model state when a "
+            "visible event needs them: tau_inserted / tau_skipped, both 0 for the shipped statement order). The pool's objects are identified by role from the "
+            "trace, no private member is named. A direct checker evaluates the property on the trace; rest states are classified. "
             "non-trivial = at least one job executed and >= 30 events; distinct = distinct event trace. In addition a real-thread stress program "
             "(no shim, -fsanitize=thread, pools of 1-8 threads, job trees / chains writing plain memory, two concurrent waiters, terminate from a job "
             "and from a client, destructor) runs a few hundred rounds: any TSan report or wrong value is a violation (tsan_rounds).",
